@@ -23,6 +23,11 @@ Theorem C08_payload_identical : forall m f m', wf_msg m = true -> ser_msg m = Ok
 Proof. exact payload63. Qed.
 Print Assumptions C08_payload_identical.
 
+(* the frame is a byte string (every element below 256) *)
+Theorem C08_frame_is_bytes : forall m f, wf_msg m = true -> ser_msg m = Ok f -> bytes_ok f = true.
+Proof. exact frame_is_bytes63. Qed.
+Print Assumptions C08_frame_is_bytes.
+
 (* a frame is accepted only if the length prefix matches, the kind is known, and the frame is
    exactly prefix ++ kind ++ value part ++ field bytes, the field bytes parsing as the kind's
    fields with NOTHING left over; the value part is empty for kinds without value and otherwise
@@ -54,6 +59,16 @@ Theorem C08_reser_not_longer : forall f m f', bytes_ok f = true -> parse_msg f =
   ser_msg m = Ok f' -> lenN f' <= lenN f.
 Proof. exact reser_shorter63. Qed.
 Print Assumptions C08_reser_not_longer.
+
+(* <Kind as MessageOps>::deserialize_message accepts nothing that Message::deserialize_message
+   does not, and the latter is the former at the kind named by byte 4 *)
+Theorem C08_per_type_agrees : forall k f m, parse_as k f = Ok m -> parse_msg f = Ok m.
+Proof. exact per_type_agrees63. Qed.
+Print Assumptions C08_per_type_agrees.
+
+Theorem C08_dispatch_agrees : forall f m, parse_msg f = Ok m -> parse_as (nth 4 f 0) f = Ok m.
+Proof. exact dispatch_agrees63. Qed.
+Print Assumptions C08_dispatch_agrees.
 
 (* the kinds: exactly the 63 discriminants 0..62 are known, and each of them has well-formed
    messages, so the theorems above are not vacuous for any kind *)
